@@ -7,9 +7,10 @@
    an arbitrary fault f (answered per partition: ok / error before the append / error after the append / no block;
    connection dropped before the append; acknowledgement lost after it).  [y_hist] is the list of batches the
    cluster received, with the rules' verdict where they were applied; [y_br] the partition states and logs. *)
-From Coq Require Import List ZArith Bool.
+From Coq Require Import List ZArith Bool String.
 From SV Require Import Producer.Msg Producer.Actors Producer.Compose
-                       C05.Model C05.Witness C05.ProofsBroker C05.ProofsSys C05.ProofsClient C05.ProofsLink C05.ProofsWitness.
+                       C05.Model C05.Witness C05.ProofsBroker C05.ProofsSys C05.ProofsClient C05.ProofsLink C05.ProofsWitness
+                       Gen.GoInt Gen.DecTypes Gen.DecTypes2 Gen.DecC01 Gen.DecC05 C05.TieGen.
 Import ListNotations.
 Open Scope Z_scope.
 
@@ -150,3 +151,37 @@ Theorem c05_resend_identical_partial : forall c ep k ms e l b s,
                              batch_of w (s_epoch s) (k, ms') = batch_of w ep0 (k, ms)).
 Proof. exact resend_identical. Qed.
 Print Assumptions c05_resend_identical_partial.
+
+(* ------------------------------------------------------------------ tie to the regenerated source (decgen) *)
+
+(* transactionManager.getAndIncrementSequenceNumber, as regenerated from async_producer.go (golden Gen.DecC01; the
+   "%s-%d" key format is part of the key), is the model's txn_stamp under any injective naming of topics *)
+Theorem c05_tie_stamp : forall name t ep sm k, (forall a b, name a = name b -> a = b) -> rep name t ep sm ->
+  seq_get k (snd t) + 1 < 2147483648 -> 0 <= seq_get k (snd t) ->
+  let '(sm', sq, ep') := get_and_increment_sequence_number sm (name (fst k)) (snd k) ep in
+  (sq, ep') = fst (txn_stamp t k) /\ rep name (snd (txn_stamp t k)) ep' sm'.
+Proof. exact tie_stamp. Qed.
+Print Assumptions c05_tie_stamp.
+
+(* ... and the stamping condition / assignment of partitionProducer.dispatch is the one of Actors.pp_forward *)
+Theorem c05_tie_stamp_condition : forall c m sq ep,
+  pp_stamp_sequence (m_seq m) (m_epoch m) (m_hasseq m) (c_idem c) (Z.of_nat (m_retries m)) (m_flags m) sq ep =
+  if c_idem c && fresh_pass m && is_data m
+  then (m_seq (set_stamp m sq ep), m_epoch (set_stamp m sq ep), m_hasseq (set_stamp m sq ep), ExFall)
+  else (m_seq m, m_epoch m, m_hasseq m, ExFall).
+Proof. exact tie_stamp_condition. Qed.
+Print Assumptions c05_tie_stamp_condition.
+
+(* transactionManager.bumpEpoch is the model's txn_bump *)
+Theorem c05_tie_bump : forall name t ep sm, rep name t ep sm -> ep + 1 < 32768 -> -32768 <= ep ->
+  let '(ep', sm') := DecC01.bump_epoch ep sm in rep name (txn_bump t) ep' sm'.
+Proof. exact tie_bump. Qed.
+Print Assumptions c05_tie_bump.
+
+(* the idempotent requirements of Config.Validate (regenerated from config.go, golden Gen.DecC05) are the theorems'
+   configuration hypothesis idem_cfg plus acks = all and at most one open request, which the composition builds in *)
+Theorem c05_tie_validate : forall c v acks mo, c_idem c = true -> is_at_least v [0; 11; 0; 0] = c_v2 c ->
+  (validate_idempotent true v (Z.of_nat (c_retry_max c)) acks mo = ExFall <->
+   idem_cfg c = true /\ acks = -1 /\ mo <= 1).
+Proof. exact tie_validate. Qed.
+Print Assumptions c05_tie_validate.
